@@ -174,7 +174,9 @@ pub fn meta_scenario(rng: &mut Rng) -> String {
         }
         s.push_str("---\n");
     }
-    for _ in 0..(1 + rng.below(4)) {
+    // sometimes many entries: the deprecation warning then carries one label per entry
+    let n_old = if rng.chance(1, 6) { 8 + rng.below(6) } else { 1 + rng.below(4) };
+    for _ in 0..n_old {
         s.push_str(&format!(">> {}: {}\n", rng.pick_str(KEYS), rng.pick_str(VALS)));
         if rng.chance(1, 3) { s.push_str(&format!("\n{}\n\n", step(rng))); }
     }
